@@ -541,7 +541,7 @@ Qed.
 
 (** * The invariant of the DB layer *)
 Definition wr_ok (hist : list rec) (r : rec) : Prop :=
-  0 < r_ver r /\ (forall y, In y hist -> r_seq y < r_seq r) /\ (forall y, In y hist -> r_key y = r_key r -> geq r y).
+  0 < r_ver r /\ (forall y, In y hist -> r_seq y < r_seq r).
 Fixpoint chain_ok (hist batch : list rec) : Prop :=
   match batch with [] => True | r :: b => wr_ok hist r /\ chain_ok (hist ++ [r]) b end.
 
@@ -554,11 +554,8 @@ Qed.
 
 Lemma wr_ok_transfer ws lws r x : Forall2 same_id ws lws -> same_id r x -> wr_ok ws r -> wr_ok lws x.
 Proof.
-  intros H (Ek & Ev & Es) (H0 & H1 & H2). split; [now rewrite Ev|]. split.
-  - intros y' Hy'. destruct (forall2_in_r _ _ _ _ H Hy') as (y & Hy & (_ & _ & Es')). rewrite Es, Es'. auto.
-  - intros y' Hy' Hk. destruct (forall2_in_r _ _ _ _ H Hy') as (y & Hy & (Ek' & Ev' & Es')).
-    assert (Hg : geq r y) by (apply H2; [exact Hy | congruence]).
-    unfold geq in *. rewrite Ev, Es, Ev', Es'. exact Hg.
+  intros H (Ek & Ev & Es) (H0 & H1). split; [now rewrite Ev|].
+  intros y' Hy'. destruct (forall2_in_r _ _ _ _ H Hy') as (y & Hy & (_ & _ & Es')). rewrite Es, Es'. auto.
 Qed.
 
 Lemma chain_ok_transfer batch : forall xs ws lws,
@@ -573,14 +570,14 @@ Lemma puts_J xs : forall s lws, J s lws -> chain_ok lws xs -> J (fold_left put x
 Proof.
   induction xs as [|x xs IH]; intros s lws HJ Hc; cbn [fold_left].
   - now rewrite app_nil_r.
-  - destruct Hc as [(H0 & H1 & H2) Hc]. replace (lws ++ x :: xs) with ((lws ++ [x]) ++ xs) by (now rewrite <- app_assoc).
+  - destruct Hc as [(H0 & H1) Hc]. replace (lws ++ x :: xs) with ((lws ++ [x]) ++ xs) by (now rewrite <- app_assoc).
     apply IH; [|exact Hc]. now apply put_J.
 Qed.
 
 Lemma chain_seq_functional batch : forall ws, seq_functional ws -> chain_ok ws batch -> seq_functional (ws ++ batch).
 Proof.
   induction batch as [|r b IH]; intros ws Hf Hc; [now rewrite app_nil_r|].
-  destruct Hc as [(_ & H1 & _) Hc]. replace (ws ++ r :: b) with ((ws ++ [r]) ++ b) by (now rewrite <- app_assoc).
+  destruct Hc as [(_ & H1) Hc]. replace (ws ++ r :: b) with ((ws ++ [r]) ++ b) by (now rewrite <- app_assoc).
   apply IH; [|exact Hc]. now apply seq_functional_snoc.
 Qed.
 
